@@ -649,6 +649,31 @@ def bs_pack(I, args, kwargs):
     nbytes = (total + 7) // 8
     if any(n == 0 for c, n in items if c not in "pP"):
         raise _foreign("zero-size field")
+    # one 'u' field holding an int without bit-vector view (plus padding): stay in integer arithmetic and tie
+    # only 8-bit vectors to it (wide BV2Int terms make the solver give up)
+    ufields = [(c, n) for c, n in items if c not in "pP"]
+    if len(ufields) == 1 and ufields[0][0] == "u" and len(vals) >= 1 and isinstance(vals[0], SInt) and \
+            vals[0].bv is None and all(c != "P" for c, _ in items):
+        n = ufields[0][1]
+        vz = vals[0].z
+        if not e.branch(z3.And(vz >= 0, vz < (1 << n))):
+            raise _foreign("'u' value out of range")
+        before = 0
+        for c, k in items:
+            if c == "u":
+                break
+            before += k
+        right = 8 * nbytes - before - n  # zero bits to the right of the field
+        T = vz * (1 << right)
+        arr = z3.K(INT, z3.BitVecVal(0, 8))
+        for i in range(nbytes):
+            lo_bit, hi_bit = 8 * (nbytes - 1 - i), 8 * (nbytes - i)
+            if hi_bit <= right or lo_bit >= right + n:
+                continue  # byte holds only padding
+            bi = z3.BitVec(e.newname("pk"), 8)
+            e.assume(z3.BV2Int(bi, False) == (T / (1 << lo_bit)) % 256)
+            arr = z3.Store(arr, i, bi)
+        return SBytes(arr, z3.IntVal(0), z3.IntVal(nbytes))
     # assemble the bit string as a list of bit-vector pieces, MSB first
     pieces = []
     for c, n in items:
@@ -667,7 +692,7 @@ def bs_pack(I, args, kwargs):
             vz = zint(v)
             if not e.branch(z3.And(vz >= 0, vz < (1 << n))):
                 raise _foreign("'u' value out of range")
-            pieces.append(ops.bvview(I, v, n))
+            pieces.append(ops.bvview(I, v, n, in_range=True))
         elif c == "s":
             vz = zint(v)
             if not e.branch(z3.And(vz >= -(1 << (n - 1)), vz < (1 << (n - 1)))):
@@ -741,7 +766,17 @@ def bs_unpack_from(I, args, kwargs):
         piece = z3.simplify(z3.Extract(hi, hi - n + 1, whole))
         pos += n
         if c == "u":
-            out.append(ops.from_bv(piece, n))
+            if n <= 8:
+                out.append(ops.from_bv(piece, n))
+            else:
+                # wide field: integer arithmetic over the 8-bit values of the bytes it touches
+                right = W - pos  # bits to the right of the field (pos already advanced)
+                first, last = (W - right - n) // 8, (W - right - 1) // 8
+                G = z3.IntVal(0)
+                for k in range(first, last + 1):
+                    G = G + zint(ops.from_bv(bs[k], 8)) * (1 << (8 * (last - k)))
+                shift = right - 8 * (need - 1 - last)
+                out.append(ops.simp_int((G / (1 << shift)) % (1 << n)))
         elif c == "s":
             out.append(SInt(z3.BV2Int(piece, True), (piece, n, True)))
         elif c == "f":
